@@ -185,6 +185,86 @@ def check_txt(case: Tuple[Tuple[Any, Any], ...]) -> Tuple[Optional[Dict[str, Any
     return None, f"txt:{len(case)}:{sum(1 for v in want.values() if v is None)}"
 
 
+THREAD_DICTS: List[Tuple[Tuple[Any, Any], ...]] = [
+    (("a", "1"),), (("a", "1"), ("b", None), ("c", b"")), tuple((f"k{i}", f"v{i}") for i in range(12)),
+]
+THREAD_OPS = ("properties", "decoded_properties")
+
+
+def check_threads(case: Tuple[int, str, str]) -> Tuple[Optional[Dict[str, Any]], str]:
+    """Two threads read one description that still holds undecoded TXT bytes (built from bytes, as a lookup fills it in):
+    thread A is stopped before every line it executes inside the library's info module in turn, thread B then performs its
+    read from start to end, A resumes - every schedule with one preemption of A.  Both reads must give the whole dictionary."""
+    import sys
+    import threading
+    from zeroconf import ServiceInfo
+
+    di, op_a, op_b = case
+    items = THREAD_DICTS[di]
+    text = ServiceInfo("_a._tcp.local.", "x._a._tcp.local.", 80, properties=dict(items)).text
+    want = nm.expected_txt(list(items))
+
+    def norm(op: str, got: Any) -> Any:
+        if op == "decoded_properties":
+            return {k.encode(): (v.encode() if v is not None else None) for k, v in got.items()}
+        return {k: (v or None) for k, v in got.items()}
+
+    k, schedules = 0, 0
+    while True:
+        k += 1
+        info = ServiceInfo("_a._tcp.local.", "x._a._tcp.local.", 80, properties=text)
+        parked, go = threading.Event(), threading.Event()
+        seen = [0]
+        res: Dict[str, Any] = {}
+
+        def tracer(frame: Any, event: str, arg: Any) -> Any:
+            if not frame.f_code.co_filename.replace("\\", "/").endswith("_services/info.py"):
+                return None
+            if event == "line":
+                seen[0] += 1
+                if seen[0] == k:
+                    parked.set()
+                    go.wait(20)
+            return tracer
+
+        def thread_a() -> None:
+            sys.settrace(tracer)
+            try:
+                res["a"] = getattr(info, op_a)
+            except Exception as e:  # noqa: BLE001
+                res["a_exc"] = e
+            finally:
+                sys.settrace(None)
+                parked.set()
+
+        th = threading.Thread(target=thread_a)
+        th.start()
+        if not parked.wait(20):
+            go.set()
+            return ({"what": f"C19 threads {case}: reader thread never reached line {k}", "replay": {"kind": "threads"},
+                     "signature": {"check": "threads-harness"}}, "threads:stuck")
+        try:
+            res["b"] = getattr(info, op_b)
+        except Exception as e:  # noqa: BLE001
+            res["b_exc"] = e
+        go.set()
+        th.join(20)
+        schedules += 1
+        for who, op in (("a", op_a), ("b", op_b)):
+            if who + "_exc" in res:
+                return ({"what": f"C19 threads {case}, A stopped before its line {k}: reader {who.upper()} raised "
+                                 f"{type(res[who + '_exc']).__name__}: {res[who + '_exc']}", "replay": {"kind": "threads"},
+                         "signature": {"check": "threads"}}, "threads:exception")
+            got = norm(op, res[who])
+            if got != want:
+                return ({"what": f"C19 threads {case}, A ({op_a}) stopped before its line {k} while B ({op_b}) reads: reader "
+                                 f"{who.upper()} got {len(got)} of {len(want)} properties: {got}", "replay": {"kind": "threads"},
+                         "signature": {"check": "threads"}}, "threads:mismatch")
+        if seen[0] < k:
+            break  # A finished before reaching line k: every preemption point has been tried
+    return None, f"threads:{min(schedules // 20, 9)}"
+
+
 def run(tier: str, seed: int) -> Tuple[Stats, str, List[str], Dict[str, Any]]:
     install_seams()
     stats = Stats()
@@ -193,6 +273,8 @@ def run(tier: str, seed: int) -> Tuple[Stats, str, List[str], Dict[str, Any]]:
     enumerate_inputs(check_name, short_strings(maxlen), stats, "names-short")
     enumerate_inputs(check_name, code_points(tier), stats, "names-code-points")
     enumerate_inputs(check_txt, txt_cases(tier), stats, "txt")
+    enumerate_inputs(check_threads, iter([(d, a, b) for d in range(len(THREAD_DICTS)) for a in THREAD_OPS for b in THREAD_OPS]),
+                     stats, "txt-two-readers", chunk=1)
     stats.states = len(stats.outcomes)
     stats.sample({"name": "Inst._http._tcp.local.", "strict": True})
     stats.sample({"name": "a..b._ht--tp._tcp.local.", "strict": False})
@@ -200,7 +282,9 @@ def run(tier: str, seed: int) -> Tuple[Stats, str, List[str], Dict[str, Any]]:
     rule = ("names: full product instance x service x protocol x domain menus (every documented rule violated singly "
             "and in combination) x strict/non-strict, whole-name length boundary, and every string of length <= "
             f"{maxlen} over {{_,a,-,1,.}} before 4 suffixes, every non-ASCII code point (quick: of the BMP) inside three service labels; TXT: all dictionaries with <= 2 entries over the "
-            "key/value menus, all 3-entry dictionaries over a reduced menu, item-length boundary; outcome classes = "
+            "key/value menus, all 3-entry dictionaries over a reduced menu, item-length boundary; two reader threads on one "
+            "description holding undecoded TXT bytes: every schedule with one preemption (reader A stopped before each line it "
+            "executes in the library, reader B runs to completion, A resumes) x properties/decoded_properties; outcome classes = "
             "(model verdict, library outcome) per family")
     assumptions = [
         "three-valued oracle: empty labels inside the instance part, a bare '.local.' name with an over-long dotted "
@@ -214,7 +298,9 @@ def run(tier: str, seed: int) -> Tuple[Stats, str, List[str], Dict[str, Any]]:
 def replay(data: Dict[str, Any]) -> int:
     install_seams()
     x = data["input"]
-    if data.get("kind") == "name":
+    if data.get("kind") == "threads":
+        v, oc = check_threads((int(x[0]), x[1], x[2]))
+    elif data.get("kind") == "name":
         v, oc = check_name((x[0], x[1]))
     else:
         v, oc = check_txt(tuple(tuple(p) for p in x))
